@@ -34,6 +34,7 @@ class Unit:
         self.crate, self.module, self.path, self.line = crate, module, path, line
         self.props, self.tier, self.name, self.filter = [], "quick", None, None
         self.timeout, self.mem, self.role = 300, None, ""
+        self.env = ""  # "K=V[,K2=V2]": harness must be compiled/run with these extra environment variables
         self.meta = {"encodes": [], "bounds": [], "stubs": [], "outside": [], "oracle": []}
 
     @property
@@ -75,6 +76,8 @@ def discover():
                             cur.mem = int(v)
                         elif k == "role":
                             cur.role = v
+                        elif k == "env":
+                            cur.env = v
                     continue
                 if cur is None:
                     continue
@@ -82,7 +85,7 @@ def discover():
                 if m and m.group(1) in cur.meta:
                     cur.meta[m.group(1)].append(m.group(2).strip())
                     continue
-                if s.startswith("//") or s.startswith("#[") or s == "":
+                if s.startswith("//") or s.startswith("#[") or s == "" or re.match(r"^\w+!\s*\{$", s):
                     continue
                 m = re.match(r"(?:pub(?:\([a-z]+\))?\s+)?fn\s+(\w+)", s)
                 if m:
@@ -141,15 +144,23 @@ def kani_cmd(filters, jobs, timeout, json_out, target_dir, extra=()):
     return cmd
 
 
-def run_crate(crate, units, jobs, mem_gb, tag, only=None):
-    """Run all harnesses of `units` (same crate) in one cargo-kani invocation. Returns dict."""
+def run_crate(group, units, jobs, mem_gb, tag, only=None):
+    """Run all harnesses of `units` (same crate, same extra environment) in one cargo-kani invocation."""
+    crate, envspec = group
     crate_dir = os.path.join(HARNESS_ROOT, crate)
-    target_dir = os.path.join(CACHE, "target", crate + os.environ.get("VERIF_TARGET_SUFFIX", ""))
+    env = dict(ENV)
+    envtag = ""
+    if envspec:
+        for kv in envspec.split(","):
+            k, _, v = kv.partition("=")
+            env[k] = v
+        envtag = "-" + re.sub(r"[^A-Za-z0-9]+", "_", envspec)[-40:]
+    target_dir = os.path.join(CACHE, "target", crate + envtag + os.environ.get("VERIF_TARGET_SUFFIX", ""))
     os.makedirs(target_dir, exist_ok=True)
     work = os.path.join(CACHE, "runs", tag)
     os.makedirs(work, exist_ok=True)
-    json_out = os.path.join(work, f"{crate}.json")
-    logf = os.path.join(work, f"{crate}.log")
+    json_out = os.path.join(work, f"{crate}{envtag}.json")
+    logf = os.path.join(work, f"{crate}{envtag}.log")
     if os.path.exists(json_out):
         os.remove(json_out)
     # keep the lock file in step with /repo (path deps resolve against it)
@@ -166,7 +177,7 @@ def run_crate(crate, units, jobs, mem_gb, tag, only=None):
         # wall cap: compile + all harnesses; generous, the per-harness cap is --harness-timeout
         wall_cap = 900 + timeout * (1 + len(filters) // max(1, jobs)) * 2
         try:
-            p = subprocess.run(cmd, cwd=crate_dir, env=ENV, stdout=lf, stderr=subprocess.STDOUT,
+            p = subprocess.run(cmd, cwd=crate_dir, env=env, stdout=lf, stderr=subprocess.STDOUT,
                                preexec_fn=_limit(mem_gb), timeout=wall_cap)
             rc = p.returncode
         except subprocess.TimeoutExpired:
@@ -178,7 +189,8 @@ def run_crate(crate, units, jobs, mem_gb, tag, only=None):
             data = json.load(open(json_out))
         except Exception as e:  # noqa
             data = None
-    return {"crate": crate, "rc": rc, "wall": wall, "json": data, "log": logf, "cmd": cmd}
+    return {"crate": crate, "rc": rc, "wall": wall, "json": data, "log": logf,
+            "cmd": ([envspec] if envspec else []) + cmd}
 
 
 # ----------------------------------------------------------------------------- interpretation
@@ -379,7 +391,7 @@ def main(argv):
     t0 = time.time()
     by_crate = {}
     for u in sel:
-        by_crate.setdefault(u.crate, []).append(u)
+        by_crate.setdefault((u.crate, u.env), []).append(u)
     runs, results = [], []
     with cf.ThreadPoolExecutor(max_workers=len(by_crate)) as ex:
         per = max(1, jobs // len(by_crate))
